@@ -568,3 +568,10 @@ Example pubkey_bar_in_name_refuted :
   let k := {| pk_name := [65; bar; 66]; pk_email := [101]; pk_type := [116]; pk_m := 5%Z; pk_y := 7%Z; pk_nizk := [110]; pk_sig := [115] |} in
   import_pubkey (export_pubkey k) <> Some k.
 Proof. vm_compute. discriminate. Qed.
+
+(* ---- no two objects within the limits share a text (corollary of the round trips) -------------- *)
+Lemma roundtrip_injective {A} (wf : A -> Prop) (ex : A -> bytes) (im : bytes -> option A) :
+  (forall x, wf x -> im (ex x) = Some x) -> forall x y, wf x -> wf y -> ex x = ex y -> x = y.
+Proof.
+  intros RT x y Hx Hy E. pose proof (RT x Hx) as Rx. rewrite E, (RT y Hy) in Rx. now inversion Rx.
+Qed.
